@@ -21,6 +21,7 @@ it only lets a rule recognise code it would otherwise not recognise.  Line numbe
 from __future__ import annotations
 
 import ast
+import copy
 import hashlib
 import json
 import os
@@ -1309,6 +1310,110 @@ def materialise_inherited(project, rec):
     return n
 
 
+def absorb_fill_in_params(project, rec):
+    """A parameter `P=None` that did not exist when the spellings were recorded (its name is a recorded LOCAL of the
+    function) and is filled in on demand - `if P is None: P = E` as a top-level statement - is an optional way to hand
+    over a value the function would compute itself.  When every call site in the project that passes it explicitly
+    passes exactly `E` (callee parameters replaced by the site's own arguments, the caller's single-definition locals
+    inlined), the parameter carries no information: it is dropped, the guard becomes `P = E`, and the argument is
+    removed from those call sites.  One site that passes anything else keeps the parameter (the rules then see a name
+    bound on two paths and say so)."""
+    from rsa.terms import canon, inline_locals
+
+    done = 0
+    by_name = {}
+    for q, fi in project.functions.items():
+        by_name.setdefault(fi.name, []).append(fi)
+    for q, fi in list(project.functions.items()):
+        if q not in rec or "#" in q:
+            continue
+        rec_names = {x[0] for x in rec[q].get("locals", [])}
+        a = fi.node.args
+        pos = a.posonlyargs + a.args
+        dflt = dict(zip([x.arg for x in pos][len(pos) - len(a.defaults) :], a.defaults))
+        dflt.update({x.arg: d for x, d in zip(a.kwonlyargs, a.kw_defaults) if d is not None})
+        for name, d in list(dflt.items()):
+            if not (isinstance(d, ast.Constant) and d.value is None and name in rec_names):
+                continue
+            guard = None
+            for i, st in enumerate(fi.node.body):
+                if isinstance(st, ast.If) and not st.orelse and len(st.body) == 1 and isinstance(st.body[0], ast.Assign) and len(st.body[0].targets) == 1 and isinstance(st.body[0].targets[0], ast.Name) and st.body[0].targets[0].id == name and ast.unparse(st.test) == f"{name} is None":
+                    guard = (i, st.body[0].value)
+                    break
+            if guard is None:
+                continue
+            stores = sum(1 for n in ast.walk(fi.node) if isinstance(n, ast.Name) and isinstance(n.ctx, ast.Store) and n.id == name)
+            if stores != 1 or any(isinstance(n, ast.Name) and n.id == name for n in ast.walk(guard[1])):
+                continue
+            # no earlier statement reads the parameter
+            if any(isinstance(n, ast.Name) and n.id == name for st in fi.node.body[: guard[0]] for n in ast.walk(st)):
+                continue
+            if len(by_name.get(fi.name, [])) != 1:
+                continue
+            params = [x.arg for x in pos]
+            drop_first = fi.cls is not None and params and params[0] in ("self", "cls")
+            idx = params.index(name) if name in params else None
+            sites, ok = [], True
+            for caller in project.functions.values():
+                for c in ast.walk(caller.node):
+                    if not isinstance(c, ast.Call):
+                        continue
+                    f = c.func
+                    cn = f.id if isinstance(f, ast.Name) else f.attr if isinstance(f, ast.Attribute) else None
+                    if cn != fi.name:
+                        continue
+                    if any(isinstance(x, ast.Starred) for x in c.args) or any(k.arg is None for k in c.keywords):
+                        ok = False
+                        continue
+                    cpar = params[1:] if (drop_first and isinstance(f, ast.Attribute)) else params
+                    bind = {cpar[i]: x for i, x in enumerate(c.args) if i < len(cpar)}
+                    bind.update({k.arg: k.value for k in c.keywords})
+                    if name not in bind:
+                        continue
+
+                    class S(ast.NodeTransformer):
+                        def visit_Name(self, n):
+                            return copy.deepcopy(bind[n.id]) if n.id in bind and n.id != name else n
+
+                    want = S().visit(copy.deepcopy(guard[1]))
+                    missing = [n.id for n in ast.walk(guard[1]) if isinstance(n, ast.Name) and n.id in params and n.id not in bind and n.id != name]
+                    got = inline_locals(caller.node, bind[name])
+                    want = inline_locals(caller.node, want)
+                    try:
+                        same = not missing and canon(got) == canon(want)
+                    except Exception:  # noqa: BLE001 - not comparable
+                        same = False
+                    if not same:
+                        ok = False
+                    sites.append(c)
+            if not ok:
+                continue
+            for c in sites:
+                cpar = params[1:] if (drop_first and isinstance(c.func, ast.Attribute)) else params
+                c.keywords = [k for k in c.keywords if k.arg != name]
+                if name in cpar and cpar.index(name) < len(c.args):
+                    if cpar.index(name) != len(c.args) - 1:
+                        continue  # a positional argument in the middle: leave the site alone
+                    c.args = c.args[:-1]
+            # drop the parameter, make the guard unconditional
+            if name in [x.arg for x in a.kwonlyargs]:
+                k = [x.arg for x in a.kwonlyargs].index(name)
+                del a.kwonlyargs[k]
+                del a.kw_defaults[k]
+            elif idx is not None and idx == len(pos) - 1 and a.args and a.args[-1].arg == name:
+                a.args.pop()
+                a.defaults.pop()
+            else:
+                continue
+            gi, val = guard
+            new = ast.Assign(targets=[ast.Name(id=name, ctx=ast.Store())], value=val)
+            ast.copy_location(new, fi.node.body[gi])
+            ast.fix_missing_locations(new)
+            fi.node.body[gi] = new
+            done += 1
+    return done
+
+
 def normalise(project, path=PINNED):
     """Alpha-normalise every function of ``project`` in place; returns statistics for the evidence."""
     stats = {"functions_recorded": 0, "functions_renamed": 0, "locals_renamed": 0, "comparisons_mirrored": 0, "locals_inlined": 0, "locals_reextracted": 0, "examples": []}
@@ -1327,6 +1432,7 @@ def normalise(project, path=PINNED):
     except RecursionError:  # pragma: no cover
         stats["helper_calls_inlined"] = 0
     stats["generators_inlined"] = inline_new_generators(project, rec)
+    stats["fill_in_parameters_absorbed"] = absorb_fill_in_params(project, rec)
     # innermost (longest qualified name) first so that a nested function is settled before its parent
     for q in sorted(project.functions, key=lambda s: -s.count(".")):
         fi = project.functions[q]
